@@ -451,7 +451,17 @@ class C14:
             k = op['op']
             t = other_texts[op['which'] % len(other_texts)]
             if k == 'bg_loads':
-                kp.loads(t)
+                # a short-lived document of ANOTHER text that is queried and then dropped: its memory (and id()) is free for
+                # the next freshly imported copy, so anything keyed on object identity shows up as a wrong result there
+                tmp, _ = kp.loads(t)
+                for fn in (lambda: kp.dumps(tmp), lambda: kp.dumps(tmp, encoding=kp.Encoding.eKern), lambda: tmp.get_all_tokens_encodings(),
+                           lambda: kp.spine_types(tmp), lambda: tmp.frequencies(), lambda: tmp.get_unique_token_encodings(),
+                           lambda: kp.dumps(tmp, from_measure=1, to_measure=1), lambda: tmp.measures_count(), lambda: kp.is_monophonic(tmp)):
+                    try:
+                        fn()
+                    except Exception:
+                        pass
+                del tmp
             elif k == 'bg_loads_damaged':
                 lines = t.split('\n')
                 cand = [i for i, l in enumerate(lines) if l and not l.startswith(('!', '*')) and i > 0]
